@@ -37,6 +37,7 @@ MUTANTS = [
     ("unfix-F18-welcome-id-late", ["C16", "C06"], ["unfix_F18_welcome_id_late.diff"], []),
     ("unfix-F21-welcome-marker-first", ["C12"], ["unfix_F21_welcome_marker_first.diff"], []),
     ("unfix-F23-pointer-after-rollback", ["C18"], ["unfix_F23_pointer_after_rollback.diff"], []),
+    ("unfix-F24-own-leaf-test", ["C03"], ["unfix_F24_own_leaf_test.diff"], []),
     ("c12-second-unbracketed-write-in-save-message", ["C12"], [], [(SQL + "messages.rs", """                    message.state.as_str(),
                 ],
             )
